@@ -18,6 +18,7 @@ def g(text):
 
 @contract(f"{E}::EcCurve.AddJacobian")
 class AddJacobian:
+  caller_ensures = []     # congruence-mode postconditions are not integer equalities: callers assume nothing
   params = {"p": "jpoint", "q": "jpoint"}
   self_fields = F
   returns = "jpoint"
@@ -66,6 +67,7 @@ def gd(text):
 
 @contract(f"{E}::EcCurve.DoubleJacobian")
 class DoubleJacobian:
+  caller_ensures = []
   params = {"p": "jpoint"}
   self_fields = F
   returns = "jpoint"
@@ -99,6 +101,7 @@ class DoubleJacobian:
 
 @contract(f"{E}::EcCurve.Add")
 class AddAffine:
+  caller_ensures = ["(result[0] is None) == (result[1] is None)"]
   params = {"p": "point", "q": "point"}
   self_fields = F
   returns = "point"
@@ -121,6 +124,7 @@ class AddAffine:
 
 @contract(f"{E}::EcCurve.Double")
 class DoubleAffine:
+  caller_ensures = ["(result[0] is None) == (result[1] is None)"]
   params = {"p": "point"}
   self_fields = F
   returns = "point"
@@ -144,6 +148,9 @@ class DoubleAffine:
 
 @contract(f"{E}::EcCurve.Negate")
 class Negate:
+  caller_ensures = ["(result[0] is None) == (p[0] is None)", "(result[1] is None) == (p[1] is None)"]
+  # functional summary for comprehensions: the result is a deterministic function of (mod, p); exact value abstracted
+  returns_expr = "(p[0], ufi('neg_y', self.mod, p[1]))"
   params = {"p": "point"}
   self_fields = F
   returns = "point"
@@ -167,6 +174,7 @@ class AffineToJacobian:
 
 @contract(f"{E}::EcCurve.JacobianToAffine")
 class JacobianToAffine:
+  caller_ensures = ["(result[0] is None) == (result[1] is None)"]
   params = {"p": "jpoint"}
   self_fields = F
   returns = "point"
